@@ -153,43 +153,93 @@ func ruleClientReport(c *Ctx, a *udpAnchors) {
 			base = b
 		}
 	}
-	var cells []*ssa.Alloc
-	if base != nil {
-		stopAtCell := deepF
-		stopAtCell.Stop = func(v ssa.Value) bool {
-			u, ok := v.(*ssa.UnOp)
-			return ok && u.Op == token.MUL && eng.CellRoot(u.X) != nil
+	// the places the association is kept in: a variable (cell), or a field of a per-datagram record that is handed to the
+	// per-datagram helper by pointer
+	type loc struct {
+		cell  *ssa.Alloc
+		field int // -1: the cell itself
+	}
+	structAllocOf := func(ptr ssa.Value) *ssa.Alloc {
+		var found *ssa.Alloc
+		for _, o := range p.Origins(ptr, eng.OriginOpts{ThroughConvert: true, Interproc: true}) {
+			al, ok := o.(*ssa.Alloc)
+			if !ok {
+				return nil
+			}
+			if found != nil && found != al {
+				return nil
+			}
+			found = al
 		}
-		for _, o := range p.Origins(base, stopAtCell) {
-			if u, ok := o.(*ssa.UnOp); ok && u.Op == token.MUL {
-				if cell := eng.CellRoot(u.X); cell != nil {
-					dup := false
-					for _, x := range cells {
-						if x == cell {
-							dup = true
+		return found
+	}
+	locOfAddr := func(addr ssa.Value) (loc, bool) {
+		if cell := eng.CellRoot(addr); cell != nil {
+			return loc{cell, -1}, true
+		}
+		if fa, ok := addr.(*ssa.FieldAddr); ok {
+			if al := structAllocOf(fa.X); al != nil {
+				return loc{al, fa.Field}, true
+			}
+		}
+		return loc{}, false
+	}
+	locOfLoad := func(v ssa.Value) (loc, bool) {
+		u, ok := v.(*ssa.UnOp)
+		if !ok || u.Op != token.MUL {
+			return loc{}, false
+		}
+		return locOfAddr(u.X)
+	}
+	var locs []loc
+	hasLoc := func(l loc) bool {
+		for _, x := range locs {
+			if x == l {
+				return true
+			}
+		}
+		return false
+	}
+	if base != nil {
+		stopAtLoc := deepF
+		stopAtLoc.Stop = func(v ssa.Value) bool {
+			_, ok := locOfLoad(v)
+			return ok
+		}
+		for _, o := range p.Origins(base, stopAtLoc) {
+			if l, ok := locOfLoad(o); ok && !hasLoc(l) {
+				locs = append(locs, l)
+			}
+		}
+	}
+	// every store into one of those places, anywhere in the repo
+	var locStores []*ssa.Store
+	for _, l := range locs {
+		if l.field < 0 {
+			locStores = append(locStores, p.CellStores(l.cell)...)
+			continue
+		}
+		for _, g := range p.Fns {
+			for _, b := range g.Blocks {
+				for _, ins := range b.Instrs {
+					if st, ok := ins.(*ssa.Store); ok {
+						if sl, ok := locOfAddr(st.Addr); ok && sl == l {
+							locStores = append(locStores, st)
 						}
-					}
-					if !dup {
-						cells = append(cells, cell)
 					}
 				}
 			}
 		}
 	}
-	if base == nil || len(cells) == 0 {
+	if base == nil || len(locs) == 0 {
 		c.CheckAt("CLIENT", key+":reported-on-the-association's-metrics", r, false, "the report is not made on the metrics object of this datagram's association")
 	} else {
 		isAssoc := func(v ssa.Value) bool {
 			if v == base {
 				return true
 			}
-			if u, ok := v.(*ssa.UnOp); ok && u.Op == token.MUL {
-				cr := eng.CellRoot(u.X)
-				for _, x := range cells {
-					if cr == x {
-						return true
-					}
-				}
+			if l, ok := locOfLoad(v); ok && hasLoc(l) {
+				return true
 			}
 			return false
 		}
@@ -200,26 +250,24 @@ func ruleClientReport(c *Ctx, a *udpAnchors) {
 		if bi, ok := base.(ssa.Instruction); ok && bi.Parent() == rf {
 			perIter = l != nil && l.Body[bi.Block()]
 		}
-		for _, cell := range cells {
-			if cell.Parent() == rf {
-				if lc := eng.InnermostLoop(eng.Loops(rf), cell.Block()); lc == nil {
+		for _, lc := range locs {
+			if lc.cell.Parent() == rf {
+				if inner := eng.InnermostLoop(eng.Loops(rf), lc.cell.Block()); inner == nil {
 					perIter = false
 				}
 			}
 		}
 		c.CheckAt("CLIENT", key+":association-variable-is-per-datagram", r, perIter, "the association variable is declared outside the loop: a datagram that finds no association is reported against the previous datagram's association")
 		// the only stores: Get result and Add result
-		for _, cell := range cells {
-			for _, st := range p.CellStores(cell) {
-				g, _ := p.AllFrom(st.Val, deepF, func(v ssa.Value) bool {
-					if cst, isC := v.(*ssa.Const); isC && cst.IsNil() {
-						return true
-					}
-					cc, _, ok := eng.AsResult(v)
-					return ok && (callTo(c, cc, a.m.get) || callTo(c, cc, a.m.add))
-				})
-				c.CheckAt("CLIENT", key+":association-variable-from-Get-or-Add", st, g, "the association variable receives something other than the result of the table lookup or of Add")
-			}
+		for _, st := range locStores {
+			g, _ := p.AllFrom(st.Val, deepF, func(v ssa.Value) bool {
+				if cst, isC := v.(*ssa.Const); isC && cst.IsNil() {
+					return true
+				}
+				cc, _, ok := eng.AsResult(v)
+				return ok && (callTo(c, cc, a.m.get) || callTo(c, cc, a.m.add))
+			})
+			c.CheckAt("CLIENT", key+":association-variable-from-Get-or-Add", st, g, "the association variable receives something other than the result of the table lookup or of Add")
 		}
 		// ... and as soon as an association is known it is recorded in that variable, on every way out: a datagram that then
 		// fails (wrong key, rejected destination) is still a datagram on a live association and must be reported
@@ -230,14 +278,11 @@ func ruleClientReport(c *Ctx, a *udpAnchors) {
 				if !ok {
 					return false
 				}
-				cr := eng.CellRoot(st.Addr)
-				hit := false
-				for _, x := range cells {
-					if cr == x {
-						hit = true
-					}
+				sl, ok := locOfAddr(st.Addr)
+				if !ok || !hasLoc(sl) {
+					return false
 				}
-				return hit && p.AnyFrom(st.Val, deepF, func(v ssa.Value) bool { return eng.ResultOf(v, src, 0) })
+				return p.AnyFrom(st.Val, deepF, func(v ssa.Value) bool { return eng.ResultOf(v, src, 0) })
 			}
 			_, nonNil := p.NilEdges(src.Parent(), func(v ssa.Value) bool { return v == ssa.Value(src) || eng.ResultOf(v, src, 0) })
 			okRec := true
